@@ -152,7 +152,7 @@ def shard(seed, items, tier):
         ev = res.get(c.id)
         sh.evaluated(c.archive[:2048] + repr((c.meta, c.policy, c.kind, 0)).encode(), nontrivial=len(c.meta[1]) > 1)
         sh.count('fault_free_runs')
-        if ev is None or rdh.budget_hit(ev):
+        if ev is None or rdh.abandoned(ev):
             continue
         tag = 'hist-ends-in-' + (c.meta[1][-1] if c.meta[1] else 'none')
         n = check_case(sh, c, ev, tag, False)
@@ -166,7 +166,7 @@ def shard(seed, items, tier):
         ev = res2.get(c.id)
         sh.evaluated(c.archive[:2048] + repr((c.meta, c.policy, c.kind, c.fail_at)).encode(), nontrivial=True)
         sh.count('injected_runs')
-        if ev is None or rdh.budget_hit(ev):
+        if ev is None or rdh.abandoned(ev):
             continue
         al = [d for k, d in ev if k == 'alloc']
         if al and al[0]['failed'] == 0:
